@@ -237,6 +237,8 @@ class Engine:
         self.depth = 0
         self.log = log
         self.solver_for_pruning = None
+        self._const_cache = {}
+        self._cur_mem = None
         from . import models
         models.install(self)
 
@@ -437,11 +439,18 @@ class Engine:
                 if isinstance(x, int):
                     return I(x >> sh, ty)
                 return I(zint(x) / (1 << sh), ty)
-            # symbolic shift amount: go through bit-vectors
-            bx = self.to_bv(x, ty)
-            by = z3.Int2BV(zint(y) % w, w)
-            r = (bx << by) if op.startswith('Shl') else (z3.LShR(bx, by) if not s else bx >> by)
-            return I(self.from_bv(r, ty), ty)
+            # symbolic shift amount: case split over the (masked) amount, each case is linear
+            if s:
+                raise Unsupported('signed shift by symbolic amount')
+            sh = zint(y) % w
+            r = None
+            for k in range(w - 1, -1, -1):
+                if op.startswith('Shl'):
+                    case = self.wrap(zint(x) * (1 << k), ty)
+                else:
+                    case = zint(x) / (1 << k) if k else zint(x)
+                r = case if r is None else If(sh == k, case, r)
+            return I(r, ty)
         if op in ('BitAnd', 'BitOr', 'BitXor'):
             if isinstance(x, int) and isinstance(y, int):
                 m = (1 << w) - 1
@@ -791,6 +800,7 @@ class FnRun:
     def operand(self, o, mem, guard, ty_hint=None):
         if o[0] in ('copy', 'move'):
             return self.read(o[1], mem, guard)
+        self.E._cur_mem = mem
         return self.E.const(o[1], ty_hint)
 
     def place_ty(self, p):
@@ -1152,12 +1162,39 @@ def _const(self, text, ty_hint=None):
     if t.startswith('"') or t.startswith('b"'):
         return Opaque('str')
     # zero-sized function item / closure:  path::to::fn  or {closure@..}
+    if t.startswith('ZeroSized: '):
+        t = t[11:].strip()
+        m = re.fullmatch(r'fn\(.*?\)(?: -> .*?)? \{(.*)\}', t)
+        if m:
+            return Clo(m.group(1), [])
     if t.startswith('{closure@'):
         return Clo(t, [])
     # enum variant constant:  Path::<..>::Variant(args) | Path::Variant
     v = self.const_adt(t)
     if v is not None:
         return v
+    # named / promoted constant with a body in the dump
+    if re.fullmatch(r'[\w:]+(?:::promoted\[\d+\])?', t):
+        c = self.ix.find_const(t)
+        if c is not None:
+            key = ('const', t)
+            if key not in self._const_cache:
+                ty, rhs, body = c
+                if rhs is not None:
+                    val = self.const(rhs[6:] if rhs.startswith('const ') else rhs, ty)
+                    self._const_cache[key] = (val, {})
+                else:
+                    fn = M.parse_function(body)
+                    cmem = {}
+                    r = self.call_fn(fn, [], True, cmem)
+                    if r is DIVERGE:
+                        raise Unsupported('constant %s did not evaluate' % t)
+                    self._const_cache[key] = (r[0], cmem)
+            val, cmem = self._const_cache[key]
+            if cmem and self._cur_mem is not None:
+                for k, v in cmem.items():
+                    self._cur_mem.setdefault(k, v)
+            return val
     return Opaque('const ' + t[:60])
 
 
